@@ -1,0 +1,33 @@
+//go:build verif
+
+package mod
+
+import "github.com/shiningrush/fastflow/pkg/entity"
+
+// Hooks for the external verification harness (build tag "verif").
+// Add-only: nothing here is compiled into a normal build.
+
+// VerifInit starts the parser exactly like Init but without the two
+// ticker-driven watcher goroutines, so that the harness decides when a
+// watch round runs.
+func (p *DefParser) VerifInit() error {
+	for i := 0; i < p.workerNumber; i++ {
+		p.workerWg.Add(1)
+		ch := make(chan *entity.TaskInstance, 50)
+		p.workerQueue = append(p.workerQueue, ch)
+		go p.goWorker(ch)
+	}
+	return p.initialRunningDagIns()
+}
+
+// VerifWatchScheduled runs one round of the scheduled-instance watcher.
+func (p *DefParser) VerifWatchScheduled() error { return p.watchScheduledDagIns() }
+
+// VerifWatchCmd runs one round of the command watcher.
+func (p *DefParser) VerifWatchCmd() error { return p.watchDagInsCmd() }
+
+// VerifExpiredRound runs one round of the expired-task sweep.
+func (wd *DefWatchDog) VerifExpiredRound() error { return wd.handleExpiredTaskIns() }
+
+// VerifLeftBehindRound runs one round of the left-behind-instance sweep.
+func (wd *DefWatchDog) VerifLeftBehindRound() error { return wd.handleLeftBehindDagIns() }
